@@ -25,7 +25,9 @@ structure RunSt where
   ps : PState := PState.init 0
   early : Option Int := none   -- dispatcher family: status of the gateway-made early answer
   dkind : String := "fixed"    -- early-answering remedy: fixed | strategy | concurrency | replay | cache
-  stored : AMap Int := []      -- replay/cache kinds: endpoint ↦ status of the stored provider response
+  order : String := "sr"       -- endpoint r: sr = storing/early-answering remedy listed first, rs = retry remedy first
+  -- replay/cache kinds: endpoint ↦ (status, x-lunar-retry-after value kept inside) of the stored response
+  stored : AMap (Int × Option Nat) := []
 
 def parseRanges (s : String) : Option (List (Int × Int)) :=
   if s == "-" then some [] else
@@ -192,6 +194,12 @@ def parseEp (ws : List String) : Option String :=
   | none => some "r"
   | some e => if e == "r" || e == "n" then some e else none
 
+/-- order of the retry remedy and the other remedy on endpoint r (`rs` only for the storing kinds) -/
+def parseOrder (ws : List String) (kind : String) : Option String :=
+  match kv ws "order" with
+  | none => some "sr"
+  | some o => if o == "sr" || (o == "rs" && replays kind) then some o else none
+
 def parseEarly (ws : List String) : Option Int :=
   match kvInt ws "early" with
   | some e => if e < 100 || e > 599 then none else some e
@@ -211,7 +219,9 @@ def policyStep (s : RunSt) (ws : List String) : RunSt × String :=
   | "dcfg" :: r =>
     match parseEarly r, parseKind r, s.pcfg, parsePcfg r with
     | some e, some k, none, some (cfg, t0) =>
-      ({ s with pcfg := some cfg, ps := PState.init t0, early := some e, dkind := k }, "ok")
+      match parseOrder r k with
+      | some o => ({ s with pcfg := some cfg, ps := PState.init t0, early := some e, dkind := k, order := o }, "ok")
+      | none => (s, "bad-op")
     | _, _, _, _ => (s, "bad-op")
   | "dreq" :: r =>
     match s.pcfg, s.early, kv r "id", kv r "seq", kvNat r "early" with
@@ -223,16 +233,22 @@ def policyStep (s : RunSt) (ws : List String) : RunSt × String :=
         else if e == 0 then (s, "pass")
         else
           -- status of the answer the gateway makes by itself (none: the request passes)
-          let answered : Option Int := if replays s.dkind then lookup ep s.stored else some st
+          let answered : Option (Int × Option Nat) :=
+            if replays s.dkind then lookup ep s.stored else some (st, none)
           match answered with
           | none => (s, "pass")
-          | some st =>
+          | some (st, stale) =>
             if ep == "n" then
               -- no retry remedy on this endpoint: the early answer leaves the gateway as it is
               (s, s!"early status={st} noop")
             else
               let (ps', o) := presp cfg s.ps (pctDec sE) (pctDec idE == pctDec sE) st
-              ({ s with ps := ps' }, s!"early status={st} {fmtPOut o}")
+              -- what leaves: the retry remedy's header, else whatever the stored response carries
+              let hdr : Option Nat := match o with | .retry m => some m | .noop => stale
+              let txt := match hdr with | some m => s!"retry after={m}" | none => "noop"
+              -- a stored response whose status was blanked (F17c) leaves without a status code
+              if st == 0 then ({ s with ps := ps' }, if hdr.isSome then "pass-with-retry-header" else "pass")
+              else ({ s with ps := ps' }, s!"early status={st} {txt}")
     | _, _, _, _, _ => (s, "bad-op")
   | "dresp" :: r =>
     match s.pcfg, s.early, kv r "id", kv r "seq", kvInt r "status" with
@@ -240,13 +256,26 @@ def policyStep (s : RunSt) (ws : List String) : RunSt × String :=
       match parseEp r with
       | none => (s, "bad-op")
       | some ep =>
-        -- replay kinds: the storing remedy (listed before the retry remedy) keeps the first storable response
-        let storable := (s.dkind == "cache" || (s.dkind == "replay" && some status == s.early))
-          && (lookup ep s.stored).isNone
-        let s := if storable then { s with stored := insert ep status s.stored } else s
-        if ep == "n" then (s, "noop") else
-        let (ps', o) := presp cfg s.ps (pctDec sE) (pctDec idE == pctDec sE) status
-        ({ s with ps := ps' }, fmtPOut o)
+        -- replay kinds: the storing remedy keeps the first storable response (a snapshot of the headers, F17b);
+        -- response-based throttling needs a relevant status and the Retry-After header, caching takes anything
+        let hdr0 := kvInt r "hdr" == some 0
+        let free := (lookup ep s.stored).isNone
+        let storable (st : Int) : Bool :=
+          free && (s.dkind == "cache" || (s.dkind == "replay" && some st == s.early && !hdr0))
+        if ep == "n" then
+          ((if storable status then { s with stored := insert ep (status, none) s.stored } else s), "noop")
+        else if s.order == "sr" then
+          let s := if storable status then { s with stored := insert ep (status, none) s.stored } else s
+          let (ps', o) := presp cfg s.ps (pctDec sE) (pctDec idE == pctDec sE) status
+          ({ s with ps := ps' }, fmtPOut o)
+        else
+          -- retry remedy first: its header-only ModifyResponseAction blanks status and body for the remedies after
+          -- it (EnsureResponseIsUpdated) and its header is already in the map the storing remedy copies
+          let (ps', o) := presp cfg s.ps (pctDec sE) (pctDec idE == pctDec sE) status
+          let seen : Int × Option Nat := match o with | .retry m => (0, some m) | .noop => (status, none)
+          let s := { s with ps := ps' }
+          let s := if replays s.dkind && storable seen.1 then { s with stored := insert ep seen s.stored } else s
+          (s, fmtPOut o)
     | _, _, _, _, _ => (s, "bad-op")
   | "pbulk" :: r =>
     match s.pcfg, kvNat r "n", kv r "prefix", kvInt r "status" with
@@ -299,6 +328,8 @@ structure JudgeSt where
   pev : List PEvent := []        -- most recent first (reversed at the end)
   early : Option Int := none
   dkind : String := "fixed"
+  order : String := "sr"
+  f17c : Bool := false
   bad : Option String := none
 
 def setBad (s : JudgeSt) (m : String) : JudgeSt :=
@@ -385,13 +416,17 @@ def judgeStep (s : JudgeSt) (op out : String) : JudgeSt :=
     | none => s
   | "dcfg" :: r =>
     match parsePcfg r, parseEarly r, parseKind r with
-    | some (cfg, _), some e, some k => { s with pcfg := some cfg, early := some e, dkind := k }
+    | some (cfg, _), some e, some k =>
+      { s with pcfg := some cfg, early := some e, dkind := k, order := (parseOrder r k).getD "sr" }
     | _, _, _ => s
   | "dreq" :: r =>
     -- a gateway-made early answer is a response of the sequence like any other
     match s.pcfg, s.early, kv r "id", kv r "seq", kvNat r "early" with
     | some cfg, some st, some idE, some sE, some e =>
-      if e == 0 || (replays s.dkind && out == "pass") then
+      if out == "pass-with-retry-header" && s.dkind == "cache" && s.order == "rs" then
+        -- class of finding F17c: retry listed before caching, the blanked response was cached with the retry header
+        { s with f17c := true }
+      else if e == 0 || (replays s.dkind && out == "pass") then
         (if out == "pass" then s else setBad s ("request-not-passed:" ++ pctEnc out))
       else
         let o : Option POut :=
@@ -469,6 +504,7 @@ def judgeFinish (s : JudgeSt) : String :=
   match s.bad with
   | some b => s!"fail - {b}"
   | none =>
+    if s.f17c then "fail F17c cached-blank-response-replayed-with-retry-header(retry-listed-before-caching)" else
     if !fholdsRev s.fev then
       match findBadF s.fev with
       | some (e, n) =>
